@@ -151,7 +151,7 @@ TypeOK == /\ Len(order) <= cap
 \* a lookup returns the value most recently stored under that key: carried by `val`, checked as
 \* an action property on every store / lookup pair
 ReadYourWrite == [][ /\ (last'.op.op = "store" => val'[last'.op.k] = last'.op.v /\ order'[1] = last'.op.k)
-                     /\ (last'.op.op = "lookup" /\ last'.op.k \in Present => last'.ret = <<val[last'.op.k]>>) ]_vars
+                     /\ (last'.op.op = "lookup" /\ last'.op.k \in Present => last'.ret = <<val[last'.op.k]>>) ]_<<vars, last>>
 
 \* a key leaves the cache only by an explicit removal, or as THE least recently used key of a full
 \* cache when a new key is stored, and then nothing else leaves
@@ -160,11 +160,11 @@ EvictOnlyLRU == [][ \A k \in Present \ Present' :
                        \/ /\ last'.op.op \in {"store", "setdefault"}
                           /\ Len(order) = cap /\ k = order[Len(order)]
                           /\ Cardinality(Present \ Present') = 1
-                          /\ last'.op.k \notin Present ]_vars
+                          /\ last'.op.k \notin Present ]_<<vars, last>>
 \* nothing but a store-like operation adds a key, and then exactly that key
 AddOnlyStored == [][ \A k \in Present' \ Present :
                         /\ last'.op.op \in {"store", "setdefault", "update"}
-                        /\ (last'.op.op # "update" => k = last'.op.k) ]_vars
+                        /\ (last'.op.op # "update" => k = last'.op.k) ]_<<vars, last>>
 
 \* --- binding ----------------------------------------------------------------------------------
 Obs == [cap |-> cap, order |-> order, vals |-> ValsIn(order)]
